@@ -2,6 +2,7 @@ package random
 
 import (
 	"errors"
+	"math"
 	"math/rand"
 
 	"github.com/lmorg/murex/lang"
@@ -23,10 +24,19 @@ func cmdRand(p *lang.Process) error {
 	p.Stdout.SetDataType(dt)
 	var v any
 
+	// the optional second parameter is an upper bound / length: when it is
+	// given it has to be an integer that fits
+	var max int
+	if p.Parameters.Len() > 1 {
+		max, err = p.Parameters.Int(1)
+		if err != nil {
+			return err
+		}
+	}
+
 	switch dt {
 	case types.Integer, types.Number:
-		max, _ := p.Parameters.Int(1)
-		if max > 0 {
+		if max > 0 && max < math.MaxInt {
 			v = rand.Intn(max + 1)
 		} else {
 			v = rand.Int()
@@ -36,7 +46,6 @@ func cmdRand(p *lang.Process) error {
 		v = rand.Float64()
 
 	case types.String, types.Generic:
-		max, _ := p.Parameters.Int(1)
 		if max < 1 {
 			max = 20
 		}
